@@ -198,17 +198,12 @@ class Scale(EnvironmentFilter):
 
     def _get_shift_and_scale(self,values) -> Tuple[float,float]:
         try:
-            values = [v for v in values if v is not None]
+            #this is a trick, nan != nan so equality will tell
+            #if a value is not equal with itself then it is nan.
+            #Using this trick is about 2x faster than using isnan.
+            values = [v for v in values if v is not None and v == v]
             shift = self._shift_value(values)
             scale = self._scale_value(values,shift)
-
-            if isnan(shift):
-                #this is a trick, nan != nan so equality will tell
-                #if a value is not equal with itself then it is nan.
-                #Using this trick is about 2x faster than using isnan.
-                not_nan_vals = list(compress(values,map(eq,values,values)))
-                shift = self._shift_value(not_nan_vals)
-                scale = self._scale_value(not_nan_vals,shift)
 
             return shift,scale
         except (TypeError,ValueError):
